@@ -1,6 +1,6 @@
 (* C13 — clients come back after any connection loss and stop when told to. *)
 From Coq Require Import ZArith List Bool.
-From HP Require Import Bytes Wire WireRoundtrip ParamsOK AioSession AioFacts AioClose LegacyClient LegacyFacts.
+From HP Require Import Bytes Wire WireRoundtrip ParamsOK AioSession AioFacts AioClose AioShape LegacyClient LegacyFacts.
 Import ListNotations.
 
 (* ---- asyncio ClientSession ---- *)
@@ -75,6 +75,42 @@ Theorem C13_asyncio_phases_reachable : forall ident secret,
   connecting (arun ident secret [AIdle]).
 Proof. exact phases_reachable. Qed.
 
+(* ---- asyncio, for EVERY reachable state ---- *)
+(* the control state of the session, whenever close() has not been called, is one of five shapes (not started / connecting
+   / backing off / connected / loss just reported) and at most one connection is not yet lost, the session's transport *)
+Theorem C13_asyncio_control_shapes : forall ident secret es, Sh (arun ident secret es).
+Proof. exact run_Sh. Qed.
+
+(* close() completes from every reachable state in which it has not been called: not connected - at the next turn of the
+   loop; connected (before or after OP_INFO) - the transport is closed and, once its loss is reported, close() returns;
+   the reconnect task is finished and no further attempt is made (with C13_asyncio_finished_forever: never again) *)
+Theorem C13_asyncio_close_always_completes : forall ident secret es,
+  let s := arun ident secret es in
+  cst s = CNone ->
+  match tr s with
+  | None =>
+      let s' := astep ident secret (astep ident secret s AClose) AIdle in
+      cst s' = CDone /\ finished s' /\ closing s' = true
+  | Some k =>
+      let s1 := astep ident secret (astep ident secret s AClose) AIdle in
+      let s2 := astep ident secret (astep ident secret s1 (ALost k)) AIdle in
+      cclosing (getc s1 k) = true /\ cst s2 = CDone /\ finished s2 /\ attempts s2 = attempts s
+  end.
+Proof. exact close_always_completes. Qed.
+
+(* from every reachable state in which close() has not been called: once the current connection (if any) is reported
+   lost, the loop runs / the back-off second passes, the next attempt is accepted (recover_events, at most 3 events) and the
+   broker's OP_INFO arrives, the session is on a fresh connection whose output is OP_AUTH(nonce) + OP_SUBSCRIBE for
+   every wanted topic *)
+Theorem C13_asyncio_recovers_always : forall ident secret, (zlen ident <= 255)%Z -> forall es name nonce,
+  let s := arun ident secret es in
+  cst s = CNone -> wf_str name -> (zlen nonce <= 20)%Z ->
+  exists fr, msginfo name nonce = Some fr /\
+    let k := length (conns s) in
+    let s' := astep ident secret (fold_left (astep ident secret) (recover_events s) s) (AData k fr) in
+    ready_on s' k nonce (wanted s).
+Proof. exact recovers_always. Qed.
+
 (* ---- blocking Client ---- *)
 (* after stop() run() ends as soon as the read it is blocked in completes, whatever it returns; no attempt follows *)
 Theorem C13_legacy_stop : forall s,
@@ -126,6 +162,9 @@ Print Assumptions C13_asyncio_recovers_after_loss.
 Print Assumptions C13_asyncio_recovers_after_refusal.
 Print Assumptions C13_asyncio_recovers_from_connected.
 Print Assumptions C13_asyncio_phases_reachable.
+Print Assumptions C13_asyncio_control_shapes.
+Print Assumptions C13_asyncio_close_always_completes.
+Print Assumptions C13_asyncio_recovers_always.
 Print Assumptions C13_legacy_stop.
 Print Assumptions C13_legacy_stopped_is_final.
 Print Assumptions C13_legacy_loss_in_receive_loop.
